@@ -1,6 +1,7 @@
 import CLModel.Proto
 import CLModel.Parser.Formats
 import CLModel.Parser.Fluent
+import CLModel.Parser.C01Sess
 namespace Ops.C01
 open Proto P
 
@@ -74,6 +75,58 @@ def opPoStrings (toks : List String) : String :=
     | _, _ => "bad-args"
   | _ => "bad-args"
 
+/-! ### round 4 -/
+
+def parseCmds : List String → Option (List C01M.Cmd)
+  | [] => some []
+  | "R" :: t :: rest => do
+    let t ← parseText t
+    let r ← parseCmds rest
+    pure (.read t.toArray :: r)
+  | "W" :: l :: rest => do
+    let r ← parseCmds rest
+    pure (.walk (l == "1") :: r)
+  | _ => none
+
+/-- c01.sess <fmt> (R <text> | W <0|1>)* : the walks of one parser object, in order -/
+def opSess (toks : List String) : String :=
+  match toks with
+  | f :: cmds =>
+    match parseFmt f, parseCmds cmds with
+    | some f, some cmds => " || ".intercalate ((C01M.run f none cmds).map showWalk)
+    | _, _ => "bad-args"
+  | _ => "bad-args"
+
+def parseBodyC : List String → Option (List C01M.FBody)
+  | [] => some []
+  | k :: s :: e :: ks :: ke :: vs :: ve :: c :: rest => do
+    let k ← parseFKind k
+    let s ← parseNat s
+    let e ← parseNat e
+    let ks ← parseInt ks
+    let ke ← parseInt ke
+    let vs ← parseInt vs
+    let ve ← parseInt ve
+    let c ← parseText c
+    let r ← parseBodyC rest
+    pure ({ b := { kind := k, s := s, e := e, ks := ks, ke := ke, vs := vs, ve := ve }, content := c } :: r)
+  | _ => none
+
+/-- c01.fluentc <0|1 onlyLocalizable> <text|none> (<kind> s e ks ke vs ve <content>)* :
+    verdict of the fluent.syntax contract, then the walk that reads `entry.content` -/
+def opFluentC (toks : List String) : String :=
+  match toks with
+  | ol :: t :: body =>
+    let ctx : Option (Option (List Nat)) := if t == "none" then some none else (parseText t).map some
+    match ctx, parseBodyC body with
+    | some ctx, some body =>
+      let ok := match ctx with | some t => C01M.contractB t.toArray body 0 | none => true
+      " | ".intercalate ((if ok then "contract=1" else "contract=0") ::
+        (C01M.fluentWalkC (ctx.map (·.toArray)) body (ol == "1")).map showEntry)
+    | _, _ => "bad-args"
+  | _ => "bad-args"
+
 def ops : List (String × (List String → String)) :=
-  [("parse", opParse false), ("parse.loc", opParse true), ("fluentwalk", opFluent), ("po.strings", opPoStrings)]
+  [("parse", opParse false), ("parse.loc", opParse true), ("fluentwalk", opFluent), ("po.strings", opPoStrings),
+   ("c01.sess", opSess), ("c01.fluentc", opFluentC)]
 end Ops.C01
